@@ -257,7 +257,7 @@ def run(ctx):
     hexe = os.path.join(BUILD, 'bin', 'c12_asan')
     if not ok_asan or not drv or not ctx.cxx(os.path.join(ROOT, 'harness/c12.cpp'), hexe, 'asan', extra='-ldl -rdynamic'):
         return
-    nprog = 1200 if quick else 12000
+    nprog = 2500 if quick else 15000
     seeds = []
     corpus = os.path.join(ROOT, 'gen/corpus/C12.txt')
     fixed = []
